@@ -74,7 +74,10 @@ Definition lexc {A} (c1 c2 : A -> A -> comparison) : A -> A -> comparison :=
 
 Lemma lexc_eq {A} (c1 c2 : A -> A -> comparison) x y :
   lexc c1 c2 x y = Eq <-> c1 x y = Eq /\ c2 x y = Eq.
-Proof. unfold lexc. destruct (c1 x y); split; intros; try tauto; try (destruct H; congruence). Qed.
+Proof.
+  unfold lexc. destruct (c1 x y); split; intros H; try tauto; try congruence;
+    destruct H; congruence.
+Qed.
 
 Lemma lexc_lt {A} (c1 c2 : A -> A -> comparison) x y :
   lexc c1 c2 x y = Lt <-> c1 x y = Lt \/ (c1 x y = Eq /\ c2 x y = Lt).
@@ -119,9 +122,8 @@ Proof.
   - induction x as [|a x IH]; intros [|b y]; simpl; try reflexivity.
     rewrite (po_antisym c P a b), IH. destruct (c a b); reflexivity.
   - induction x as [|a x IH]; intros [|b y] [|d z]; simpl; intros H; try congruence.
-    + destruct (c a b); discriminate.
-    + destruct (c a b) eqn:E; try discriminate.
-      rewrite (po_eq_cong c P a b d E). destruct (c b d); auto.
+    destruct (c a b) eqn:E; try discriminate.
+    rewrite (po_eq_cong c P a b d E). destruct (c b d); auto.
   - induction x as [|a x IH]; intros [|b y] [|d z]; simpl; intros H1 H2; try congruence.
     destruct (c a b) eqn:Eab; try discriminate.
     + rewrite (po_eq_cong c P a b d Eab). destruct (c b d) eqn:Ebd; try discriminate; eauto.
@@ -132,7 +134,7 @@ Qed.
 
 Lemma list_lex_Separating {A} (c : A -> A -> comparison) : Separating c -> Separating (list_lex c).
 Proof.
-  intros S. induction x as [|a x IH]; intros [|b y]; simpl; intros H; try congruence.
+  intros S x. induction x as [|a x IH]; intros [|b y]; simpl; intros H; try congruence.
   destruct (c a b) eqn:E; try discriminate. f_equal; auto.
 Qed.
 
@@ -189,5 +191,5 @@ Proof.
   split; intros.
   - apply N.compare_antisym.
   - apply N.compare_eq in H. now subst.
-  - apply N.compare_lt_iff in H, H0. apply N.compare_lt_iff. lia.
+  - exact (N.lt_trans x y z H H0).
 Qed.
